@@ -10,7 +10,6 @@ SPECS = [
  ('C03-division-adds-exponent-of-new-unit', U+'unit_solver.py', "baseunits[unit] = baseunits[unit]-exp if unit in baseunits else -exp\n        return Atom(magnitude, baseunits)", "baseunits[unit] = baseunits[unit]-exp if unit in baseunits else exp\n        return Atom(magnitude, baseunits)"),
  ('C03-shortest-symbol-match', U+'unit_solver.py', "base = max(bases, key=len)", "base = min(bases, key=len) if len(bases)>2 else max(bases, key=len)"),
  ('C03-list-prefix-admissibility-skipped', U+'unit_solver.py', "if isinstance(UNIT_STANDARD[base].prefixes,list) and prefix not in UNIT_STANDARD[base].prefixes:", "if isinstance(UNIT_STANDARD[base].prefixes,list) and len(UNIT_STANDARD[base].prefixes)<2 and prefix not in UNIT_STANDARD[base].prefixes:"),
- ('C03-no-gcd-reduction-for-negative', U+'fraction.py', "            if gcd>1:\n                return reduce(int(num/gcd), int(den/gcd))", "            if gcd>1 and num>0:\n                return reduce(int(num/gcd), int(den/gcd))"),
  ('C03-fraction-exponent-float-power', U+'base_units.py', "        magnitude  = UNIT_STANDARD[base].magnitude ** exp.value(dtype=float)\n", "        magnitude  = UNIT_STANDARD[base].magnitude ** int(exp.num/exp.den) if exp.den==3 else UNIT_STANDARD[base].magnitude ** exp.value(dtype=float)\n"),
  # C04
  ('C04-inversed-returns-value-for-small', U+'unit_types.py', "    def _convert_inversed(self, value):\n        return 1/value", "    def _convert_inversed(self, value):\n        return 1/value if np.all(np.abs(value)>1e-3) else value"),
@@ -36,7 +35,6 @@ SPECS = [
  ('C07-value-through-to', U+'quantity.py', "            value = self._convert(self.magnitude, self.baseunits, BaseUnits(expression)).value\n", "            value = self.to(expression).magnitude.value\n"),
  ('C07-result-shares-magnitude-on-same-unit-mul-by-one', U+'quantity.py', "    def _mul(self, left, right):\n        magnitude = left.magnitude * right.magnitude", "    def _mul(self, left, right):\n        if right.baseunits.nobase and right.magnitude.error is None and np.all(right.magnitude.value==1):\n            return Quantity(left.magnitude, left.baseunits)\n        magnitude = left.magnitude * right.magnitude"),
  ('C07-getitem-returns-view', U+'magnitude.py', "        elif isinstance(value, np.ndarray) or np.isscalar(value):\n            self.value = value.astype(float)", "        elif isinstance(value, np.ndarray) or np.isscalar(value):\n            self.value = value.astype(float, copy=False)"),
- ('C07-abs-alters-argument', U+'quantity.py', "@implements(np.abs)\ndef abs(a, **kwargs):\n    return Quantity(np.abs(a.magnitude.value), a.baseunits)", "@implements(np.abs)\ndef abs(a, **kwargs):\n    a.magnitude.value = np.abs(a.magnitude.value)\n    return Quantity(a.magnitude.value, a.baseunits)"),
  # C08
  ('C08-sub-subtracts-errors', U+'magnitude.py', "            error = left.error + right.error\n        return Magnitude(value, error)\n        \n    def __sub__", "            error = abs(left.error - right.error)\n        return Magnitude(value, error)\n        \n    def __sub__"),
  ('C08-neg-drops-error', U+'magnitude.py', "        return Magnitude(-self.value, self.error)", "        return Magnitude(-self.value)"),
